@@ -247,7 +247,10 @@ CLAIMED = {
         "other outcome leaves the stored identity unchanged. Tie: the real authenticate (ok / AuthenticationError / other "
         "exception) equals the model on the full neighbourhood of a valid answer for relay_urls unset / string / list. "
         "Through the real start_client: a captured answer does not authenticate another connection; a failed AUTH after a "
-        "good one keeps the identity; challenges are distinct 128-bit hex strings.",
+        "good one keeps the identity; challenges are distinct 128-bit hex strings. Since round 10 check_auth_event is moreover "
+        "translated from the current source on every run, its loop over the tags included (harness/lib/translate_validators.py), "
+        "and Lean proves the translation equal to the model's authenticate / scanAuthTags for every clock value, event and "
+        "configuration (tie_auth_loop by induction over the tags, tie_check_auth_event).",
         "Partial: unpredictability of secrets.token_hex is trusted, not modelled. Trusted: BIP-340/SHA-256; clock replaced "
         "by a constant integer.",
         "DESIGN.md §6 C15",
